@@ -170,6 +170,7 @@ struct InclEngine : Engine {
 		int ndirs = (int)w.range(1, 3);
 		bool use_base = w.chance(1, 3), use_wild = w.chance(1, 3), use_faults = fr.chance(1, 2), use_odd = w.chance(1, 3);
 		int fmt = w.chance(1, 2) ? FMT_HTML : gen_text_format(w);
+		bool dag = w.chance(1, 2);          // half of the worlds are acyclic by construction (file i only names files j > i), so clauses (b)/(c) get their share
 		std::vector<std::string> names, paths;
 		for (int i = 0; i < nfiles; i++) {
 			std::string dir = dirs[w.below((uint64_t)ndirs)];
@@ -221,11 +222,12 @@ struct InclEngine : Engine {
 					else if (k == 2 && use_odd) t += "{{" + std::string(990 + w.below(20), 'x') + "}}";
 					else if (k == 3 && use_odd) t += "{{unterminated";
 					else if (k == 4 && use_odd) t += "{{}}";
-					else if (k == 5 && use_odd) t += "{{ {{" + rel(basedir, target) + "}} }}";
-					else if (k == 6) t += "{{" + rel(basedir, paths[(size_t)i]) + "}}";            // self
+					else if (k == 5 && use_odd && !dag) t += "{{ {{" + rel(basedir, target) + "}} }}";
+					else if (k == 6 && !dag) t += "{{" + rel(basedir, paths[(size_t)i]) + "}}";            // self
 					else {
 						// spell the target relative to the folder the marker will be resolved against (the search dir or this file's base)
 						size_t ti = (size_t)w.below((uint64_t)nfiles);
+						if (dag) { if (i + 1 >= nfiles) { t += "{{missing" + std::to_string(nm) + ".txt}}"; t += "\n"; continue; } ti = (size_t)w.range(i + 1, nfiles - 1); }
 						std::string nmspell = names[ti];
 						std::string tp = paths[ti];
 						std::string tdir = tp.substr(0, tp.rfind('/'));
@@ -271,7 +273,7 @@ struct InclEngine : Engine {
 		int nops = (int)w.range(1, 3);
 		for (int i = 0; i < nops; i++) {
 			Json o = Json::object();
-			std::string top = paths[w.below((uint64_t)nfiles)];
+			std::string top = paths[dag ? w.below((uint64_t)std::min(nfiles, 2)) : w.below((uint64_t)nfiles)];
 			o["top"] = top;
 			unsigned k = (unsigned)w.below(10);
 			if (k < 6) {
